@@ -1,5 +1,51 @@
 """Declarations of the harness entry points added after the forth wrapper (kept apart so node.py stays small)."""
+from ctypes import POINTER, c_char_p, c_double, c_int, c_long, c_void_p
 
 
 def declare(node, sig):
-    pass
+    # builder
+    sig("aws_b_new", c_long, c_long, c_double)
+    sig("aws_b_cmd", c_int, c_long, c_int, c_int, c_long, c_double, c_double, c_char_p, c_long, c_long)
+    sig("aws_b_snapshot", c_long, c_long)
+    sig("aws_b_length", c_int, c_long, c_int, POINTER(c_long))
+    sig("aws_b_text", c_long, c_long, c_int, c_char_p, c_long)
+    # generic content observation
+    sig("aws_dump", c_long, c_long, c_char_p, c_long)
+    sig("aws_text", c_long, c_long, c_int, c_char_p, c_long)
+    sig("aws_length", c_long, c_long)
+
+
+class Mixin:
+    def b_new(self, initial, resize):
+        h = self.lib.aws_b_new(initial, resize)
+        if h == 0:
+            self.raise_last()
+        return h
+
+    def b_cmd(self, h, cmd, via=0, i=0, d=0.0, d2=0.0, s=b"", arr=0):
+        if not self.lib.aws_b_cmd(h, cmd, via, i, d, d2, s, len(s), arr):
+            self.raise_last()
+
+    def b_snapshot(self, h):
+        r = self.lib.aws_b_snapshot(h)
+        if r == 0:
+            self.raise_last()
+        return r
+
+    def b_length(self, h, via=0):
+        out = c_long(0)
+        if not self.lib.aws_b_length(h, via, out):
+            self.raise_last()
+        return out.value
+
+    def dump(self, h) -> bytes:
+        return self.text_call(self.lib.aws_dump, h)
+
+    def text(self, h, what) -> bytes:
+        return self.text_call(self.lib.aws_text, h, what)
+
+    def length(self, h):
+        r = self.lib.aws_length(h)
+        if r < 0:
+            self.raise_last()
+        return r
